@@ -119,10 +119,11 @@ func (g *gen) pick(ss []string) string { return ss[g.t.Choose(len(ss))] }
 
 func DefaultFeatures(t *tape.Tape) Features {
 	return Features{
-		// interfaces and unions over entity types hit open known findings of the planner
-		// (DESIGN.md sec. 9); they are drawn (to keep tapes stable) but switched off unless a
-		// scenario or a -sim.features override turns them on
-		Interfaces:    t.Bool(1, 2) && false,
+		// unions over entity types, and several selection shapes below interface-typed fields,
+		// hit open known findings of the planner (DESIGN.md sec. 9): unions are drawn (to keep
+		// tapes stable) but switched off unless a -sim.features override turns them on;
+		// interfaces are on with the restricted selection shapes of OpFeatures
+		Interfaces:    t.Bool(1, 2),
 		Unions:        t.Bool(1, 2) && false,
 		ValueTypes:    t.Bool(2, 3),
 		Inputs:        t.Bool(1, 2),
@@ -715,7 +716,7 @@ func (w *World) sdl(svc int) string {
 		}
 	}
 	if !hasEntity && nq == 0 {
-		b.WriteString("  _service: String\n")
+		b.WriteString(fmt.Sprintf("  _service%d: String\n", svc))
 	}
 	b.WriteString("}\n\n")
 	for _, rt := range []struct {
